@@ -872,6 +872,8 @@ def history_cases(thorough):
                     for prior in PRIORS:
                         if prior == "step" and not has_step(route):
                             continue
+                        if prior == "band" and not thorough and step != steps[0] and has_step(route):
+                            continue               # quick tier: the window history is crossed with the first order step of the family only
                         for hide in (True, False):
                             for cv in (covs if has_cov(route) else (False,)):
                                 cases.append({"kind": "history", "route": route, "R": R, "C": C, "cells": cells, "hide": hide,
@@ -909,7 +911,7 @@ def cmif_cases(thorough):
                         cases.append({"kind": "cmif", "route": route, "nch": nch, "syms": syms, "nSv": nSv, "freqlim": None})
         # where the chart is drawn: supplied axes of every kind through plot.CMIF_plot; own figure beside a figure of the caller
         allsyms = ["".join(p) for p in itertools.product("abc", repeat=L)]
-        sub = allsyms[::13 if thorough else 10]
+        sub = allsyms[::13 if thorough else 16]
         if nch >= 3:
             sub = sub + [("dcba" * L)[:L]]                      # with a rank-deficient line
         for i, syms in enumerate(sub):
@@ -1009,7 +1011,8 @@ def explore(ctx):
             "beside": "6 banded 2x3 tables (thorough: + every 7th 2x3 table, with and without window) x hide_poles through every table route; CMIF subset through both routes"},
         "history": {"what": "chart A drawn and discarded, then chart B of tables of the same shape drawn and judged, both in one child process forked "
                             "from a process that has not drawn any chart (one child per case)",
-                    "prior_drawing": PRIOR_TEXT, "order_step": list(STEPS), "hide_poles": [True, False],
+                    "prior_drawing": PRIOR_TEXT, "order_step": list(STEPS),
+                    "band_history_steps": "every order step" if ctx.thorough else "order step 1 on the 2x3 tables, 2 on the 3x4 tables", "hide_poles": [True, False],
                     "covariance_table": [None, "mixed"], "freqlim": {"judged drawing": [None], "first drawing": [None, list(LO_HI)]},
                     "tables_compared_bytewise_after_first_drawing": True,
                     "tables": {f"{R}x{C}": {"routes": sorted({c["route"] for c in hc if (c["R"], c["C"]) == (R, C)}),
